@@ -55,6 +55,7 @@ type c14Srv struct {
 
 func newC14Srv(w *core.W, kind string, seed uint64, conf ...func(*dns.Server)) *c14Srv {
 	s := &c14Srv{w: w, kind: kind, ctl: sched.New(seed), serveErr: make(chan error, 1)}
+	s.ctl.Scribble = true // a recycled receive buffer is overwritten at once: the request the handler keeps must not live in it
 	sched.Use(s.ctl)
 	started := make(chan struct{})
 	s.srv = &dns.Server{ReadTimeout: time.Hour, IdleTimeout: func() time.Duration { return time.Hour }, UDPSize: 65535,
@@ -342,6 +343,20 @@ func c14Admission(w *core.W, j int) {
 		}
 		for i := r.IntN(3); i > 0; i-- {
 			mm.Ar = append(mm.Ar, pick())
+		}
+		if r.IntN(2) == 0 {
+			// what most real queries carry: an OPT record (any options, known and unknown codes), last of
+			// at most two additional records
+			for try := 0; try < 8; try++ {
+				if o := g.Rec(model.Layouts[41]); c01Class(o, nil) == "" {
+					if len(mm.Ar) == 2 {
+						mm.Ar = mm.Ar[:1]
+					}
+					mm.Ar = append(mm.Ar, o)
+					w.Count("wellformed_queries_with_opt", 1)
+					break
+				}
+			}
 		}
 		wire := mm.Wire()
 		if len(wire) > 60000 {
